@@ -574,26 +574,46 @@ func (d *Document) updateEndnotesFile() {
 
 // addFootnoteRelationship 添加脚注关系
 func (d *Document) addFootnoteRelationship() {
-	relationshipID := fmt.Sprintf("rId%d", len(d.relationships.Relationships)+1)
+	d.addDocumentPartRelationship("http://schemas.openxmlformats.org/officeDocument/2006/relationships/footnotes", "footnotes.xml")
+}
 
-	relationship := Relationship{
-		ID:     relationshipID,
-		Type:   "http://schemas.openxmlformats.org/officeDocument/2006/relationships/footnotes",
-		Target: "footnotes.xml",
+// addDocumentPartRelationship 把脚注、尾注、设置部件的关系添加到主文档部件的关系中
+// （word/_rels/document.xml.rels，Target 相对于 word/ 目录）。
+// 这些部件由主文档使用，因此关系不属于包级别的 _rels/.rels；在那里 "footnotes.xml" 也解析不到任何部件。
+// 同一类型的关系只添加一次，ID 不与已有的关系重复（rId1 保留给 styles.xml）。
+func (d *Document) addDocumentPartRelationship(relType, target string) {
+	if d.documentRelationships == nil {
+		d.documentRelationships = &Relationships{
+			Xmlns:         "http://schemas.openxmlformats.org/package/2006/relationships",
+			Relationships: []Relationship{},
+		}
 	}
-	d.relationships.Relationships = append(d.relationships.Relationships, relationship)
+
+	used := map[string]bool{"rId1": true}
+	for _, rel := range d.documentRelationships.Relationships {
+		if rel.Type == relType {
+			return
+		}
+		used[rel.ID] = true
+	}
+
+	n := len(d.documentRelationships.Relationships) + 2
+	relationshipID := fmt.Sprintf("rId%d", n)
+	for used[relationshipID] {
+		n++
+		relationshipID = fmt.Sprintf("rId%d", n)
+	}
+
+	d.documentRelationships.Relationships = append(d.documentRelationships.Relationships, Relationship{
+		ID:     relationshipID,
+		Type:   relType,
+		Target: target,
+	})
 }
 
 // addEndnoteRelationship 添加尾注关系
 func (d *Document) addEndnoteRelationship() {
-	relationshipID := fmt.Sprintf("rId%d", len(d.relationships.Relationships)+1)
-
-	relationship := Relationship{
-		ID:     relationshipID,
-		Type:   "http://schemas.openxmlformats.org/officeDocument/2006/relationships/endnotes",
-		Target: "endnotes.xml",
-	}
-	d.relationships.Relationships = append(d.relationships.Relationships, relationship)
+	d.addDocumentPartRelationship("http://schemas.openxmlformats.org/officeDocument/2006/relationships/endnotes", "endnotes.xml")
 }
 
 // GetFootnoteCount 获取脚注数量
@@ -783,12 +803,5 @@ func (d *Document) saveSettings(settings *Settings) error {
 
 // addSettingsRelationship 添加设置文件关系
 func (d *Document) addSettingsRelationship() {
-	relationshipID := fmt.Sprintf("rId%d", len(d.relationships.Relationships)+1)
-
-	relationship := Relationship{
-		ID:     relationshipID,
-		Type:   "http://schemas.openxmlformats.org/officeDocument/2006/relationships/settings",
-		Target: "word/settings.xml",
-	}
-	d.relationships.Relationships = append(d.relationships.Relationships, relationship)
+	d.addDocumentPartRelationship("http://schemas.openxmlformats.org/officeDocument/2006/relationships/settings", "settings.xml")
 }
